@@ -156,23 +156,22 @@ theorem checkOps_none (path : List Bool) : ∀ (ops : List (Key × Option VH)) (
     by_cases hsw : (!startsWith k path) = true
     · rw [if_pos hsw] at h; cases h
     · rw [if_neg hsw] at h
-      · skip
-        obtain ⟨ihs, ihp, ihprev⟩ := ih (some k) h
-        have hk : path <+: k := by
-          rw [bl_prefix_iff_take]
-          simpa [startsWith] using hsw
-        refine ⟨?_, ?_, ?_⟩
-        · intro o ho
-          rcases List.mem_cons.mp ho with rfl | ho
-          · exact hk
-          · exact ihs o ho
-        · rw [List.pairwise_cons]
-          exact ⟨fun o ho => ihprev k rfl o ho, ihp⟩
-        · intro p hp o ho
-          have hpk : bitsLt p k = true := hord p hp
-          rcases List.mem_cons.mp ho with rfl | ho
-          · exact hpk
-          · exact bl_trans _ _ _ hpk (ihprev k rfl o ho)
+      obtain ⟨ihs, ihp, ihprev⟩ := ih (some k) h
+      have hk : path <+: k := by
+        rw [bl_prefix_iff_take]
+        simpa [startsWith] using hsw
+      refine ⟨?_, ?_, ?_⟩
+      · intro o ho
+        rcases List.mem_cons.mp ho with rfl | ho
+        · exact hk
+        · exact ihs o ho
+      · rw [List.pairwise_cons]
+        exact ⟨fun o ho => ihprev k rfl o ho, ihp⟩
+      · intro p hp o ho
+        have hpk : bitsLt p k = true := hord p hp
+        rcases List.mem_cons.mp ho with rfl | ho
+        · exact hpk
+        · exact bl_trans _ _ _ hpk (ihprev k rfl o ho)
 
 theorem checkPaths_none (root : Node) : ∀ (paths : List (PathUpdateIn Node VH)) (prev : Option (List Bool)),
     checkPaths root prev paths = none →
